@@ -13,13 +13,15 @@ Definition same_cell (t : ety) (s : list nat) (v : arr) : bool :=
   ety_eqb (aty v) t && list_eqb Nat.eqb (ash v) s && wfb v.
 
 (** ⊢ / UndoFirst: the first row *)
-Definition l_first : lens := Lens (p_first None)
+Definition l_first : lens := Lens
+  (fun x => match ash x with S n :: s => Ok (Arr (aty x) s (firstn (prodn s) (adata x))) | _ => Unspec end)
   (fun x v => match ash x with
               | S n :: s => if same_cell (aty x) s v
                             then Ok (Arr (aty x) (S n :: s) (adata v ++ skipn (prodn s) (adata x))) else Err
               | _ => Unspec end).
 (** ⊣ / UndoLast *)
-Definition l_last : lens := Lens (p_last None)
+Definition l_last : lens := Lens
+  (fun x => match ash x with S n :: s => Ok (Arr (aty x) s (skipn (n * prodn s) (adata x))) | _ => Unspec end)
   (fun x v => match ash x with
               | S n :: s => if same_cell (aty x) s v
                             then Ok (Arr (aty x) (S n :: s) (firstn (n * prodn s) (adata x) ++ adata v)) else Err
